@@ -193,8 +193,12 @@ def _is_str(t):
 def _boolean_valued(t):
     if t.op in ("cmp", "bool"):
         return True
+    if t.op == "const" and isinstance(t.a[0], bool):
+        return True
     if t.op == "un" and t.a[0] in ("~", "not"):
         return _boolean_valued(t.a[1])
+    if t.op == "ite":
+        return _boolean_valued(t.a[1]) and _boolean_valued(t.a[2])
     if t.op == "bin" and t.a[0] in ("&", "|"):
         return _boolean_valued(t.a[1]) and _boolean_valued(t.a[2])
     if t.op == "call" and callee_name(t.a[0]) in ("np.isnan", "np.isfinite", "np.isinf", "np.isclose", "np.isin", "np.any", "np.all"):
@@ -583,6 +587,8 @@ def call(fn, args=(), kw=()):
 
 
 def method_call(base, name, args=(), kw=()):
+    if name == "reshape" and len(args) > 1 and not kw:
+        args = (tup(list(args)),)  # x.reshape(a, b) is np.reshape(x, (a, b))
     if name in METHOD_ALIASES:
         return call(ext(METHOD_ALIASES[name]), (base,) + tuple(args), kw)
     if name == "astype":
